@@ -506,12 +506,11 @@ def translate_check(cname, fn: ast.FunctionDef, script_terms, instance=None, nam
         if isinstance(st, ast.If) and UPGRADE_TEST.fullmatch(ast.unparse(st.test)) and not st.orelse:
             # upgrade of an older file: outside the model (open answers EOutOfModel there); only its
             # transaction structure is read
+            # (what these blocks execute is recorded and modelled statement by statement in generate_upgrade /
+            #  model/M19_sqltx.v; nothing about them is read here)
             m = re.fullmatch(r"\w+ == (\d+)", ast.unparse(st.test))
             if m and int(m.group(1)) >= type(instance).LATEST_DB_VERSION:
                 raise Unsupported("%s.check_database: upgrade block for a version that is not older" % cname)
-            a, scripts = upgrade_block_atomic(cname, st, instance, names or {})
-            atomic = atomic and a
-            nscripts += len(scripts)
             continue
         if isinstance(st, ast.Return) and ast.unparse(st.value) == "self.LATEST_DB_VERSION":
             continue
@@ -607,20 +606,247 @@ def generate(repo=None):
            "Definition wallet_cfg : dbcfg :=\n  mkCfg %d\n    %s\n    %s." % (w_latest, lst(w_check), lst(lst(f) for f in w_ins)),
            "Definition wallet_write_functions : list string := %s." % strs(w_names),
            "Definition wallet_tables : list Z := [%d]." % tables.ids["<db_name>"], "",
-           "(* upgrades of older files (%d + %d scripts): is every one a single BEGIN..COMMIT transaction that" % (i_ns, w_ns),
-           "   also rewrites the version row? *)",
-           "Definition upgrade_scripts_atomic : bool := %s." % ("true" if (i_atomic and w_atomic) else "false"), "",
            "(* `with <database>:` blocks (deferred commits) in the anchored callers *)",
            "Definition with_block_users : list string := %s." % strs(users), ""]
     meta = {"tables": {n: {"id": tables.ids[n], "cols": tables.cols[n], "pk": tables.pk[n]} for n in tables.cols},
             "identity_functions": i_names, "wallet_functions": w_names, "prepare_pinned": pinned,
             "with_block_users": users, "identity_latest": i_latest, "wallet_latest": w_latest,
-            "upgrade_scripts": {"identity": i_ns, "wallet": w_ns, "atomic": bool(i_atomic and w_atomic)}}
+            }
     return "\n".join(out), meta
 
 
 def write(repo=None, dest=DEST):
     text, meta = generate(repo)
+    old = open(dest).read() if os.path.exists(dest) else None
+    if old != text:
+        with open(dest, "w") as f:
+            f.write(text)
+    return text, meta
+
+
+# =============================================================================================================
+# C19x: check_database for files of every older version, as the calls it makes on the connection
+# (recorded by running the real method on an uninitialised instance whose execute / executescript / commit only
+# take notes) and, inside each call, the SQL statements one by one.  -> coq/gen/G19x_upgrade.v
+DEST_X = "/verif/coq/gen/G19x_upgrade.v"
+
+
+def record_check(cls, version: int, db_name=None):
+    """the calls check_database(version) makes: [("execute", sql) | ("executescript", sql) | ("commit",)]"""
+    obj = cls.__new__(cls)
+    if db_name is not None:
+        obj.db_name = db_name
+    calls = []
+
+    def execute(statement, bindings=(), *a, **kw):
+        if bindings or a or kw:
+            raise Unsupported("%s.check_database: execute with bindings/options" % cls.__name__)
+        if not WRITE_SQL.match(statement):
+            raise Unsupported("%s.check_database reads the database (%r): outside the model" % (cls.__name__, statement[:60]))
+        calls.append(("execute", statement))
+        return iter(())
+
+    def executescript(statements, *a, **kw):
+        if a or kw or not isinstance(statements, str):
+            raise Unsupported("%s.check_database: executescript with options" % cls.__name__)
+        calls.append(("executescript", statements))
+        return iter(())
+
+    def commit(*a, **kw):
+        if a or kw:
+            raise Unsupported("%s.check_database: commit with arguments" % cls.__name__)
+        calls.append(("commit",))
+        return True
+
+    def refuse(*a, **kw):
+        raise Unsupported("%s.check_database uses an unmodelled connection method" % cls.__name__)
+    obj.execute, obj.executescript, obj.commit = execute, executescript, commit
+    obj.executemany = obj.__enter__ = obj.__exit__ = obj.close = obj.open = refuse
+    try:
+        ret = cls.check_database(obj, str(version).encode())
+    except Unsupported:
+        raise
+    except Exception as e:
+        raise Unsupported("%s.check_database(%d) cannot be run on a recording stub: %r" % (cls.__name__, version, e))
+    if ret != cls.LATEST_DB_VERSION:
+        raise Unsupported("%s.check_database(%d) returns %r" % (cls.__name__, version, ret))
+    return calls
+
+
+class SqlEnv:
+    """table numbers / columns / keys while a statement sequence is parsed (renames move the columns along)"""
+
+    def __init__(self, tables: Tables, rename):
+        self.tables = tables
+        self.rename = rename or {}
+        self.cols = {k: list(v) for k, v in tables.cols.items()}
+        self.pk = {k: list(v) for k, v in tables.pk.items()}
+        self.literals = {}
+
+    def name(self, n):
+        return self.rename.get(n, n)
+
+    def tid(self, n):
+        return self.tables.tid(self.name(n))
+
+    def lit(self, text):
+        if text not in self.tables.__dict__.setdefault("literals", {}):
+            self.tables.literals[text] = -100 - len(self.tables.literals)
+        return self.tables.literals[text]
+
+
+def _ws(s):
+    return " ".join(s.split())
+
+
+def parse_sql(st: str, env: SqlEnv, latest: int):
+    """one SQL statement -> Coq term of type sql"""
+    s = _ws(st)
+    if re.fullmatch(r"BEGIN", s, re.I):
+        return "QBegin"
+    if re.fullmatch(r"COMMIT", s, re.I):
+        return "QCommit"
+    m = re.fullmatch(r"ALTER TABLE (\w+) RENAME TO (\w+)", s, re.I)
+    if m:
+        a, b = env.name(m.group(1)), env.name(m.group(2))
+        if a not in env.cols:
+            raise Unsupported("RENAME of unknown table %s" % a)
+        env.cols[b], env.pk[b] = list(env.cols[a]), list(env.pk[a])
+        return "QStmt (XRename %d %d)" % (env.tid(a), env.tid(b))
+    if re.match(r"CREATE\b", s, re.I):
+        name, cols, pk = parse_create(s)
+        lname = env.name(name)
+        env.cols[lname], env.pk[lname] = cols, [cols.index(c) for c in pk]
+        return "QStmt (XCreate %d [%s] %d%%nat)" % (env.tid(lname), "; ".join("%d%%nat" % i for i in env.pk[lname]), len(cols))
+    if re.fullmatch(r"DELETE FROM option WHERE key ?= ?'database_version'", s, re.I):
+        return "QStmt (XDeleteEq 0 0%nat 0)"
+    m = re.fullmatch(r"INSERT INTO option ?\( ?key ?, ?value ?\) ?VALUES ?\( ?'database_version' ?, ?'(\d+)' ?\)", s, re.I)
+    if m:
+        if int(m.group(1)) != latest:
+            raise Unsupported("version row written with %s, LATEST_DB_VERSION is %d" % (m.group(1), latest))
+        return "QStmt (XInsert false 0 [0; %d])" % int(m.group(1))
+    m = re.fullmatch(r"UPDATE option SET value ?= ?'(\d+)' WHERE key ?= ?'database_version'", s, re.I)
+    if m:
+        return "QStmt (XUpdateWhere 0 1%%nat %d 0%%nat 0)" % int(m.group(1))
+    m = re.fullmatch(r"INSERT (OR IGNORE )?INTO (\w+) SELECT (.+) FROM (\w+)", s, re.I)
+    if m:
+        dst, src = env.name(m.group(2)), env.name(m.group(4))
+        sel = [c.strip() for c in m.group(3).split(",")]
+        if dst not in env.cols or src not in env.cols:
+            raise Unsupported("INSERT..SELECT on unknown table: %s" % s[:100])
+        if not (sel == env.cols[dst] == env.cols[src]):
+            raise Unsupported("INSERT..SELECT does not copy all columns in order: %s" % s[:120])
+        return "QStmt (XInsertSelect %s %d %d)" % ("true" if m.group(1) else "false", env.tid(dst), env.tid(src))
+    m = re.fullmatch(r"DROP TABLE (\w+)", s, re.I)
+    if m:
+        return "QStmt (XDrop %d)" % env.tid(m.group(1))
+    m = re.fullmatch(r"ALTER TABLE (\w+) ADD (?:COLUMN )?(\w+) \w+", s, re.I)
+    if m:
+        t = env.name(m.group(1))
+        if t not in env.tables.cols or env.tables.cols[t][-1] != m.group(2):
+            raise Unsupported("ADD COLUMN %s is not the last column of the current %s" % (m.group(2), t))
+        return "QStmt (XAddCol %d %d%%nat)" % (env.tid(t), len(env.tables.cols[t]) - 1)
+    m = re.fullmatch(r"UPDATE (\w+) SET (\w+) ?= ?'([^']*)'", s, re.I)
+    if m:
+        t = env.name(m.group(1))
+        if t not in env.tables.cols or m.group(2) not in env.tables.cols[t]:
+            raise Unsupported("UPDATE of unknown column: %s" % s[:100])
+        return "QStmt (XUpdateCol %d %d%%nat (%d))" % (env.tid(t), env.tables.cols[t].index(m.group(2)), env.lit(m.group(3)))
+    raise Unsupported("SQL statement outside the modelled fragment: %r" % s[:160])
+
+
+def calls_to_pyops(calls, env: SqlEnv, latest: int):
+    out = []
+    for c in calls:
+        if c[0] == "commit":
+            out.append("PCommit")
+        elif c[0] == "execute":
+            parts = [x for x in c[1].split(";") if x.strip()]
+            if len(parts) != 1:
+                raise Unsupported("execute() with %d statements" % len(parts))
+            out.append("PExecute (%s)" % parse_sql(parts[0], env, latest))
+        else:
+            out.append("PScript [%s]" % "; ".join(parse_sql(x, env, latest) for x in c[1].split(";") if x.strip()))
+    return out
+
+
+def one_upgrade(cls, tables: Tables, rename, db_name=None):
+    latest = cls.LATEST_DB_VERSION
+    seqs = {v: record_check(cls, v, db_name) for v in range(0, latest + 1)}
+    if seqs[0] != seqs[latest]:
+        raise Unsupported("%s.check_database treats an unversioned file differently from a current one" % cls.__name__)
+    tail_calls = seqs[latest]
+    ups = []
+    for v in range(latest - 1, 0, -1):
+        nxt = seqs[v + 1]
+        if len(seqs[v]) < len(nxt) or seqs[v][len(seqs[v]) - len(nxt):] != nxt:
+            raise Unsupported("%s.check_database(%d) does not end with what check_database(%d) does" % (cls.__name__, v, v + 1))
+        ups.append((v, seqs[v][:len(seqs[v]) - len(nxt)]))
+    ups.reverse()
+    out_ups = []
+    for v, calls in ups:
+        env = SqlEnv(tables, rename)
+        out_ups.append("(%d, [%s])" % (v, "; ".join(calls_to_pyops(calls, env, latest))))
+    env = SqlEnv(tables, rename)
+    tail = calls_to_pyops(tail_calls, env, latest)
+    return latest, out_ups, tail, {v: [list(c) for c in calls] for v, calls in ups}
+
+
+def generate_upgrade(repo=None):
+    repo = repo or os.environ.get("VERIF_REPO", "/repo")
+    from ipv8.attestation.identity.database import IdentityDatabase
+    from ipv8.attestation.wallet.database import AttestationsDB
+    import ipv8
+    if not os.path.abspath(ipv8.__file__).startswith(os.path.abspath(repo) + os.sep):
+        raise Unsupported("ipv8 imported from %s, not from %s" % (ipv8.__file__, repo))
+    # same table numbering as G19_db.v
+    tables = Tables()
+    idb = IdentityDatabase.__new__(IdentityDatabase)
+    wdb = AttestationsDB.__new__(AttestationsDB)
+    wdb.db_name = "vdbname"
+    _, _, i_ins, _, _, _ = one_db(repo, IDENTITY, "IdentityDatabase", idb, tables, {}, {})
+    _, _, w_ins, _, _, _ = one_db(repo, WALLET, "AttestationsDB", wdb, tables,
+                                  {"self.db_name": "<db_name>"}, {"vdbname": "<db_name>"})
+    i_latest, i_ups, i_tail, i_raw = one_upgrade(IdentityDatabase, tables, {})
+    w_latest, w_ups, w_tail, w_raw = one_upgrade(AttestationsDB, tables, {"vdbname": "<db_name>"}, "vdbname")
+
+    def ins(fs):
+        out = []
+        for f in fs:
+            m = re.fullmatch(r"OExec (true|false) (\d+)", f[0]) if f else None
+            if not m:
+                raise Unsupported("insert function shape")
+            out.append("(%s, %s)" % (m.group(1), m.group(2)))
+        return "[" + "; ".join(out) + "]"
+
+    def lst(xs):
+        return "[" + "; ".join(xs) + "]"
+    names = sorted(tables.ids, key=lambda n: tables.ids[n])
+    ident = lambda n: "TID_" + re.sub(r"\W", "", n.replace("<db_name>", "wallet"))
+    out = ["(* GENERATED by tools/tr/tr_db.py (generate_upgrade) from %s, %s - do not edit *)" % (IDENTITY, WALLET),
+           "(* check_database of every shipped Database subclass, recorded call by call (execute / executescript /",
+           "   commit) for a file of each older version, each call split into its SQL statements. *)",
+           "From Coq Require Import ZArith List Bool.",
+           "From IPV8V Require Import model.M19_sqltx.",
+           "Import ListNotations.", "Open Scope Z_scope.", ""]
+    for n in names:
+        out.append("Definition %s : Z := %d.   (* %s%s *)" % (ident(n), tables.ids[n], n,
+                   "(%s)" % ", ".join(tables.cols[n]) if n in tables.cols else " (only during an upgrade)"))
+    lits = getattr(tables, "literals", {})
+    for text, v in lits.items():
+        out.append("Definition LIT_%s : Z := %d.   (* '%s' *)" % (re.sub(r"\W", "_", text), v, text))
+    out += ["",
+            "Definition identity_ucfg : ucfg :=\n  mkU %d\n    %s\n    %s\n    %s." % (i_latest, lst(i_ups), lst(i_tail), ins(i_ins)),
+            "",
+            "Definition wallet_ucfg : ucfg :=\n  mkU %d\n    %s\n    %s\n    %s." % (w_latest, lst(w_ups), lst(w_tail), ins(w_ins)),
+            ""]
+    meta = {"table_ids": dict(tables.ids), "literals": dict(lits), "identity_upgrade_calls": i_raw, "wallet_upgrade_calls": w_raw,
+            "identity_latest": i_latest, "wallet_latest": w_latest}
+    return "\n".join(out), meta
+
+
+def write_upgrade(repo=None, dest=DEST_X):
+    text, meta = generate_upgrade(repo)
     old = open(dest).read() if os.path.exists(dest) else None
     if old != text:
         with open(dest, "w") as f:
